@@ -109,7 +109,7 @@ CHECKS = {
                 "a recording resolver must receive every pair the harness itself finds overlapping-and-approaching (line modes: swept paths within the sum of radii), images included. "
                 "Resolution: 8 clusters (pair, unequal pair, chain, triangle, two pairs, crossed pairs, 4-chain, growing merger) x 4 search modes x keep_sorted x {merge, hardsphere} under EVERY permutation of the pending list that the internal shuffle can produce "
                 "(one rand_seed per permutation, found by simulating the shuffle with libc's rand_r; 12k orders) over 3 steps: mass, momentum, centre of mass, particle identity (no hash lost, duplicated or foreign), N, kinetic energy at restitution 1; "
-                "plus hard-sphere bounces against sheared images (momentum, separation afterwards).",
+                "plus hard-sphere bounces against sheared images (momentum, separation afterwards). LINE and LINETREE detection also with a negative time step; fast pairs whose companions fly along (both bodies in small non-leaf cells at the end of the step).",
         "note": "Pairs within 1e-9 of the threshold are not demanded; extra pairs are allowed; order enumeration is capped at 720 (quick) / 5040 (thorough) permutations per case and the evidence lists capped cases.",
     },
     "C08": {
@@ -151,7 +151,7 @@ CHECKS = {
         "text": "Every sequence over a 21-operation structural alphabet (step, add, remove, remove-all, switch to 8 integrators, reset_integrator, change dt/softening, edit one particle, add variation, MEGNO, merging collision) "
                 "up to depth 3 (quick) / 4 (thorough) from 2-4 start integrators is executed on the real ASan-built library with a manual snapshot after every operation; after EVERY append the archive is re-opened and nblobs, t[k] and every snapshot k "
                 "are compared field-wise with the serialised live state recorded when snapshot k was taken. One long history crosses the 1024-entry index growth. Automatic cadence (interval dt/2.5dt/10dt, step 1/3) x 8 fixed-step integrators x leg patterns x both directions x manual snapshots "
-                "is compared with the prescribed cadence and with a lock-step reference run.",
+                "is compared with the prescribed cadence and with a lock-step reference run. Histories that make arrays vanish (reset, remove_all, integrator switches) are also run on an archive whose first snapshot is taken after two steps; the cadence cases also re-issue the same cadence request between legs (documented not to disturb the cadence).",
         "note": "Histories outside documented usage (editing particles while variational particles exist) are filtered by a stated predicate; the function-pointer flag field and wall-time fields are not compared.",
     },
     "C05": {
@@ -161,7 +161,7 @@ CHECKS = {
                 "x test-particle setting x direction, and module variations (compensated/tree gravity, direct/line/tree collisions, open/periodic boundary, variational 1st/2nd order, MEGNO), every history over "
                 "{step, steps(3), synchronize, add, remove, edit-last-particle} up to depth 2 (quick) / 4 (thorough) is a save point. Each is saved via memory stream, file, pickle and as an appended delta, restored, and checked: "
                 "save(load(save)) field-identical; every persisted scalar equal at its true DWARF offset; every user-settable member equal; original and restored continued 1,2,5 steps bit-identical in particles, t, dt and then in every persisted field. "
-                "Independently every user-settable scalar member is set to a non-default value and round-tripped.",
+                "Independently every user-settable scalar member is set to a non-default value and round-tripped. Simulationarchive.getSimulation(t, mode snapshot/close) on archives started after 1 or 3 steps for every representative integrator setting that offers keep_unsynchronized or needs no synchronisation (and WHFast / IAS15 / BS / LEAPFROG with variational particles): the returned simulation continues bit for bit.",
         "note": "Callbacks re-attached by the harness; scratch members of p_jh records (ax..az, m, r, last_collision, hash) are masked because they are never initialised; with a tree, particle arrays are compared as multisets (tree re-orders by design).",
     },
     "C18": {
